@@ -42,7 +42,7 @@ func main() {
 		vlib.CorpusScenario("C13-c5", `{ annsn { kidsnn { ... @defer { sn kidn { ... @defer { s } } } } } }`, nil),
 	}
 	vlib.ExecConformance(c, "C13", bins, vs, rand.New(rand.NewSource(vlib.Seed()+1300)), n,
-		vlib.ExecMode{Faults: true, Rogue: true, Sentinel: true, Defer: true, Scheds: true, PlansPer: 3,
+		vlib.ExecMode{Faults: true, Panics: true, Rogue: true, Sentinel: true, Defer: true, Scheds: true, PlansPer: 3,
 			Module: "GqlDeferTrace", Config: "GqlDeferTrace.cfg", Lines: vlib.DeferTraceLines,
 			Corpus: corpus, Classify: vlib.DeferRejectKey, Devs: []vlib.DevStep{{Config: "GqlDeferTraceLeaf.cfg", Key: vlib.LeafElemKey}, {Config: "GqlDeferTraceDev.cfg"}},
 			// the same payload sequences as delivered on the wire by the streaming transports
